@@ -1,6 +1,7 @@
 (** Property C20 — the theorems the check counts as obligations.  Nothing but
     statements closed by [exact] and [Print Assumptions]. *)
-From HS Require Import Base.Prelude C20.Model C20.Bloom C20.Counting C20.TopK C20.Reservoir C20.Merkle.
+From HS Require Import Base.Prelude C20.Model C20.Bloom C20.Counting C20.TopK C20.Reservoir C20.Merkle C20.TDigest.
+From Coq Require Import Floats QArith.
 Local Open Scope Z_scope.
 
 (** Bloom: every item added with a positive count is reported present — for
@@ -149,3 +150,24 @@ Theorem c20_merkle_sort_sorted : forall d, NoDup (map fst d) ->
   ssorted (m_sort d) /\ forall x, In x (m_sort d) <-> In x d.
 Proof. exact merkle_sort_sorted. Qed.
 Print Assumptions c20_merkle_sort_sorted.
+
+(** T-digest.  On binary64 — the arithmetic the implementation runs on — both
+    clauses are REFUTED (known findings C20-tdigest-range-rounding and
+    C20-tdigest-monotone-rounding; witness add(2.7, 3), compression 1). *)
+Theorem c20_tdigest_float_range_refuted : ~ td_range_statement FA (f_msz 1%float) 2.
+Proof. exact td_float_range_refuted. Qed.
+Print Assumptions c20_tdigest_float_range_refuted.
+
+Theorem c20_tdigest_float_monotone_refuted : ~ td_monotone_statement FA (f_msz 1%float) 2.
+Proof. exact td_float_monotone_refuted. Qed.
+Print Assumptions c20_tdigest_float_monotone_refuted.
+
+(** PARTIAL: the same definitions over exact rationals keep every quantile
+    within [min, max], for every digest built by adds, flushes and merges and
+    every max-size function / buffer size. *)
+Theorem c20_tdigest_exact_range_partial : forall msz bs s q v mn mx, reach msz bs s ->
+  snd (td_quantile QA msz s q) = Some v ->
+  td_min (fst (td_quantile QA msz s q)) = Some mn -> td_max (fst (td_quantile QA msz s q)) = Some mx ->
+  (mn <= v)%Q /\ (v <= mx)%Q.
+Proof. exact td_exact_quantile_in_range. Qed.
+Print Assumptions c20_tdigest_exact_range_partial.
